@@ -130,6 +130,44 @@ def simple_routes():
     return r
 
 
+def decimal_routes():
+    """Values that are not exactly representable in binary, given in containers of different precision: float32 noise on
+    these magnitudes is < 1e-9, far below the 8-decimal resolution of the identity."""
+    import decimal
+    import pygaps
+    k = kw()
+    pf = [0.001, 0.002, 0.01, 0.02, 0.01, 0.002]
+    lf = [0.003, 0.007, 0.011, 0.013, 0.012, 0.009]
+    ef = [0.0001, 0.0003, 0.0007, 0.0009, 0.0011, 0.0013]
+    r = {}
+    r['list[float]'] = lambda: pygaps.PointIsotherm(pressure=pf, loading=lf, **k)
+    r['ndarray[float64]'] = lambda: pygaps.PointIsotherm(pressure=numpy.array(pf), loading=numpy.array(lf), **k)
+    r['ndarray[float32]'] = lambda: pygaps.PointIsotherm(pressure=numpy.array(pf, dtype='float32'), loading=numpy.array(lf, dtype='float32'), **k)
+    r['ndarray[float32]/list'] = lambda: pygaps.PointIsotherm(pressure=numpy.array(pf, dtype='float32'), loading=lf, **k)
+    r['ndarray[longdouble]'] = lambda: pygaps.PointIsotherm(pressure=numpy.array(pf, dtype='longdouble'), loading=numpy.array(lf, dtype='longdouble'), **k)
+    r['values + 3e-10'] = lambda: pygaps.PointIsotherm(pressure=[x + 3e-10 for x in pf], loading=[x - 3e-10 for x in lf], **k)
+    r['DataFrame[float32]'] = lambda: pygaps.PointIsotherm(isotherm_data=pandas.DataFrame({'pressure': pf, 'loading': lf}).astype('float32'),
+                                                          pressure_key='pressure', loading_key='loading', **k)
+    r['DataFrame[object]'] = lambda: pygaps.PointIsotherm(isotherm_data=pandas.DataFrame({'pressure': pf, 'loading': lf}).astype(object),
+                                                         pressure_key='pressure', loading_key='loading', **k)
+    return r
+
+
+def decimal_extra_routes():
+    """The same, for an extra data column."""
+    import pygaps
+    k = kw()
+    pf = [0.001, 0.002, 0.01, 0.02, 0.01, 0.002]
+    lf = [0.003, 0.007, 0.011, 0.013, 0.012, 0.009]
+    ef = [0.0001, 0.0003, 0.0007, 0.0009, 0.0011, 0.0013]
+    r = {}
+    for name, dt in (('float64', 'float64'), ('float32', 'float32'), ('object', object)):
+        r[f'extra column {name}'] = (lambda dt=dt: pygaps.PointIsotherm(
+            isotherm_data=pandas.DataFrame({'pressure': pf, 'loading': lf, 'enth': pandas.Series(ef).astype(dt)}),
+            pressure_key='pressure', loading_key='loading', **k))
+    return r
+
+
 def point_routes():
     import pygaps
     r = {}
@@ -249,7 +287,8 @@ def run(ctx):
     import pygaps
     ev = nt = 0
     # ---- insensitivity
-    groups = [('simple', simple_routes(), 'list[float]'), ('point', point_routes(), 'reference'), ('base', base_routes(), 'reference'),
+    groups = [('simple', simple_routes(), 'list[float]'), ('decimal', decimal_routes(), 'list[float]'),
+              ('decimal extra column', decimal_extra_routes(), 'extra column float64'), ('point', point_routes(), 'reference'), ('base', base_routes(), 'reference'),
               ('model', model_routes(), 'reference'), ('fitted model', fitted_routes(), 'list[float]')]
     ids_ref = {}
     for gname, routes, refname in groups:
@@ -351,6 +390,11 @@ def run(ctx):
     ops = {
         'iso_id': lambda i: i.iso_id,
         'repr': lambda i: repr(i),
+        'str': lambda i: str(i),
+        'temperature': lambda i: i.temperature,
+        'to_dict': lambda i: i.to_dict(),
+        'loading(unit mol)': lambda i: i.loading(loading_unit='mol'),
+        'pressure(relative)': lambda i: i.pressure(pressure_mode='relative'),
         '== other': lambda i: i == mk_base(),
         'loading_at': lambda i: i.loading_at(1.5),
         'pressure_at(cubic)': lambda i: i.pressure_at(1.0, interpolation_type='cubic'),
@@ -363,12 +407,17 @@ def run(ctx):
         'convert_loading(mass g)': lambda i: i.convert_loading(basis_to='mass', unit_to='g'),
         'convert_material(kg)': lambda i: i.convert_material(unit_to='kg'),
         'convert_temperature(°C)': lambda i: i.convert_temperature('°C'),
+        'convert_temperature(K)': lambda i: i.convert_temperature('K'),
         'properties edited in place': lambda i: i.properties.__setitem__('note', 'edited'),
         'data cell edited in place': lambda i: i.data_raw.__setitem__('loading', i.data_raw['loading'] * 1.5),
         'data_raw replaced': lambda i: setattr(i, 'data_raw', i.data_raw.assign(loading=i.data_raw['loading'] + 0.25)),
     }
-    for h in list(itertools.product(ops, repeat=1)) + list(itertools.product(ops, repeat=2)):
-        iso = mk_point()
+    READS = {'iso_id', 'repr', 'str', 'temperature', 'to_dict', 'loading(unit mol)', 'pressure(relative)', '== other', 'loading_at',
+             'pressure_at(cubic)', 'spreading_pressure_at', 'to_json', 'to_csv'}
+    templates = {'kelvin': {}, 'celsius': dict(temperature=-195.795, temperature_unit='°C')}
+    fresh = {t: (mk_point(**o).iso_id, mk_point(**o).to_dict()) for t, o in templates.items()}
+    for tname, h in [(t, h) for t in templates for h in list(itertools.product(ops, repeat=1)) + list(itertools.product(ops, repeat=2))]:
+        iso = mk_point(**templates[tname])
         bad = False
         for op in h:
             if not core.call(ops[op], iso).ok:
@@ -378,12 +427,22 @@ def run(ctx):
         if bad:
             continue
         nt += 1
+        if all(op in READS for op in h):
+            got = core.call(lambda: (iso.iso_id, iso.to_dict()))
+            if not got.ok or got.value != fresh[tname]:
+                what = 'identifier' if (not got.ok or got.value[0] != fresh[tname][0]) else 'to_dict()'
+                ctx.violate(core.make_violation(
+                    {'check': 'read-changes-identity', 'last_op': h[-1].split('(')[0], 'template': tname},
+                    f'[{tname} isotherm] after the read-only calls {list(h)} the {what} differs from that of a fresh isotherm: '
+                    f'{got.value if got.ok else got.brief()} vs {fresh[tname]}', {'history': list(h), 'template': tname}, fresh[tname],
+                    got.value if got.ok else got.brief()))
+                continue
         got = core.call(lambda: iso.iso_id)
         want = core.call(lambda: rebuilt(iso).iso_id)
         if want.ok and (not got.ok or got.value != want.value):
             ctx.violate(core.make_violation(
-                {'check': 'id-does-not-track-content', 'last_op': h[-1].split('(')[0], 'first_op': h[0].split('(')[0] if len(h) > 1 else None},
-                f'after {list(h)} the identifier is {got.value if got.ok else got.brief()} but an isotherm rebuilt from the same content has {want.value}',
+                {'check': 'id-does-not-track-content', 'template': tname, 'last_op': h[-1].split('(')[0], 'first_op': h[0].split('(')[0] if len(h) > 1 else None},
+                f'[{tname} isotherm] after {list(h)} the identifier is {got.value if got.ok else got.brief()} but an isotherm rebuilt from the same content has {want.value}',
                 {'history': list(h)}, want.value, got.value if got.ok else got.brief(),
                 unit_test=("import logging, pandas, pygaps\npygaps.logger.setLevel(logging.CRITICAL)\n"
                            f"import sys; sys.path.insert(0, {core.VERIF!r})\nfrom mc.checks import c05\n"
